@@ -114,9 +114,15 @@ func (p *Pat) show(top bool) string {
 	panic("bad pattern kind " + p.K)
 }
 
-// StrLit renders a string-literal terminal. Content without '"', '\' and control characters is printed
-// interpreted; anything else must be handled by the caller (HostFam spells its own literals).
-func StrLit(s string) string { return `"` + s + `"` }
+// StrLit renders a string-literal terminal. gocc takes the raw text between the quotes as the terminal (no
+// unescaping), so content with '"', '\' or a line break is written as a raw (back-quoted) literal; content with a
+// back quote must be written interpreted.
+func StrLit(s string) string {
+	if strings.ContainsAny(s, "\"\\\n\r") && !strings.Contains(s, "`") {
+		return "`" + s + "`"
+	}
+	return `"` + s + `"`
+}
 
 func (s Sym) String() string {
 	if s.Str {
